@@ -19,15 +19,15 @@ from .datatypes import Quantity, Coordinate, Ref, Bin, Uri, \
 from .version import LATEST_VER, VER_3_0
 from .zoneinfo import timezone_name
 
-URI_META = re.compile(r'([\\`\u0080-\uffff])')
-STR_META = re.compile(r'([\\"\$\u0080-\uffff])')
+URI_META = re.compile(r'([\\`\x00-\x07\x0b\x0e-\x1f\u0080-\uffff])')
+STR_META = re.compile(r'([\\"\$\x00-\x07\x0b\x0e-\x1f\u0080-\uffff])')
 
 
 def str_sub(match):
     c = match.group(0)
     o = ord(c)
-    if o >= 0x0080:
-        # Unicode
+    if (o >= 0x0080) or (o < 0x0020):
+        # Unicode, or a control character without a short escape
         return '\\u%04x' % o
     elif c in '\\"$':
         return '\\%s' % c
@@ -36,8 +36,8 @@ def str_sub(match):
 def uri_sub(match):
     c = match.group(0)
     o = ord(c)
-    if o >= 0x80:
-        # Unicode
+    if (o >= 0x80) or (o < 0x20):
+        # Unicode, or a control character without a short escape
         return '\\u%04x' % o
     elif c in '\\`':
         return '\\%s' % c
